@@ -47,6 +47,8 @@ class World:
         self.ifaces: Dict[str, Any] = {}    # "node:port" -> interface (for nic ops)
         self.ip: Dict[str, str] = {}
         self.ftp: Optional[Tuple[str, str]] = None
+        self.c2: Optional[Tuple[str, str]] = None       # (host with the C2 server, host with the beacon)
+        self.rec = None
         self.env = None
 
     def link_of(self, iface) -> Optional[Tuple[int, bool]]:
@@ -194,6 +196,24 @@ def build(topo: dict) -> World:
         w.ftp = (c, s)
     if topo.get("tripwire"):
         _install_tripwire(w, topo["tripwire"])
+    if topo.get("c2") and len(w.hosts) >= 2:
+        from primaite.simulator.system.applications.red_applications.c2.c2_beacon import C2Beacon
+        from primaite.simulator.system.applications.red_applications.c2.c2_server import C2Server
+        a, b = topo["c2"]
+        w.nodes[a].software_manager.install(C2Server)
+        w.nodes[b].software_manager.install(C2Beacon)
+        beacon = w.nodes[b].software_manager.software["c2-beacon"]
+        # the handshake needs a few frames: give it room, then put the configured bandwidths back (before recording starts)
+        saved = [l.bandwidth for l in w.links]
+        for l in w.links:
+            l.bandwidth = 100.0
+        with _quiet():
+            beacon.configure(c2_server_ip_address=w.ip[a], keep_alive_frequency=5)
+            w.nodes[a].software_manager.software["c2-server"].run()
+            beacon.establish()
+        for l, b0 in zip(w.links, saved):
+            l.bandwidth = b0
+        w.c2 = (a, b)
     return w
 
 
@@ -243,13 +263,27 @@ def _install_tripwire(w: World, spec: dict):
                 elif payload == "trip-flap":
                     iface.disable()
                     iface.enable()
+                elif payload == "trip-raise":
+                    # an exception in the middle of a delivery: it unwinds through every transmit_frame below
+                    raise RuntimeError("c18-tripwire: raised inside a delivery")
+                elif isinstance(payload, str) and payload.startswith("trip-relay:"):
+                    # ... and one that is caught half-way up: this node sends a raising payload on and swallows the exception
+                    # (what FTPServer._retrieve_data does around _send_data), so the sends below are cut short, those above complete
+                    w_ = _TRIP["world"]
+                    try:
+                        self.software_manager.send_payload_to_session_manager(
+                            payload="trip-raise", dest_ip_address=_ip(w_.ip[payload.split(":", 1)[1]]), dest_port=_port("FTP_DATA"),
+                            ip_protocol=_proto("UDP"))
+                    except RuntimeError:
+                        pass
                 return True
         _Tripwire = _TW
     _TRIP["world"] = w
     _TRIP["target"] = spec["target"]
-    node = w.nodes[spec["host"]]
-    node.software_manager.install(_Tripwire)
-    node.software_manager.software["c18-tripwire"].start()
+    for h in ([spec["host"]] + [x for x in spec.get("also", []) if x != spec["host"]]):
+        node = w.nodes[h]
+        node.software_manager.install(_Tripwire)
+        node.software_manager.software["c18-tripwire"].start()
 
 
 _Tripwire = None
@@ -264,17 +298,92 @@ def _air_load_of(airspace, hz: int) -> float:
 
 
 # ------------------------------------------------------------------------------------------------- recorder
-class Recorder:
-    """Class-level wrappers (installed for the duration of one case) around every send_frame, the two admission tests, the two
-    transmit functions, the wireless receive, and enable/disable of wired and wireless interfaces."""
+_INVENTORY = None
+_DEAD_MODULES: Dict[str, str] = {}
+_RUNTIME = None
 
-    def __init__(self, w: World):
+
+def default_inventory():
+    """(class, file, method, steps) for every class of the NetworkInterface hierarchy that defines send_frame / enable / disable,
+    as the extractor reads it from the source (pure `ast`)."""
+    global _INVENTORY
+    if _INVENTORY is None:
+        from harness.extract import link as x_link
+        try:
+            _INVENTORY = x_link.iface_methods()
+        except Exception:
+            # the extractor does not recognise some method any more (reported by `extract:Link`): the search stage still has to
+            # run, so the classes to wrap are read from the imported classes instead
+            _INVENTORY = runtime_fallback_inventory()
+    return _INVENTORY
+
+
+def runtime_fallback_inventory():
+    import inspect
+    runtime, classes = runtime_iface_methods()
+    by_name = {(c.__name__, c.__module__.split(".")[-1] + ".py"): c for c in classes}
+    out = []
+    for cname, fname, method in sorted(runtime):
+        try:
+            src = inspect.getsource(by_name[(cname, fname)].__dict__[method])
+        except Exception:
+            src = ""
+        if method == "send_frame":
+            steps = ["enabled", "?"] if ("transmit" in src) else ["stub"]
+        elif method == "enable":
+            steps = ["set"] if "self.enabled = True" in src else ["super"]
+        else:
+            steps = ["clear"] if "self.enabled = False" in src else ["super"]
+        out.append((cname, fname, method, steps))
+    return out
+
+
+def runtime_iface_methods():
+    """The same inventory read from the imported classes (cross-check of the extractor): every loaded class deriving from
+    NetworkInterface that has send_frame / enable / disable in its own __dict__."""
+    global _RUNTIME
+    if _RUNTIME is not None:
+        return _RUNTIME
+    import importlib
+    import pkgutil
+    import primaite.simulator.network as pkg
+    for m in pkgutil.walk_packages(pkg.__path__, pkg.__name__ + "."):
+        try:
+            importlib.import_module(m.name)
+        except Exception as e:      # a module that cannot be imported at all is dead code (its classes cannot be instantiated)
+            _DEAD_MODULES[m.name.split(".")[-1] + ".py"] = f"{type(e).__name__}: {str(e).split(' from ')[0][:80]}"
+    from primaite.simulator.network.hardware.base import NetworkInterface
+    seen, todo, out = set(), [NetworkInterface], set()
+    while todo:
+        c = todo.pop()
+        if c in seen:
+            continue
+        seen.add(c)
+        todo += c.__subclasses__()
+        if not c.__module__.startswith("primaite."):
+            continue            # the rig's own test doubles
+        for m in ("send_frame", "enable", "disable"):
+            if m in c.__dict__:
+                out.add((c.__name__, c.__module__.split(".")[-1] + ".py", m))
+    _RUNTIME = (out, seen)
+    return _RUNTIME
+
+
+class Recorder:
+    """Class-level wrappers (installed for the duration of one case) around every `send_frame` of the NetworkInterface hierarchy that
+    transmits, every `enable` / `disable` that writes the flag (which classes: the regenerated inventory), the two admission tests,
+    the two transmit functions, the wireless receive, `Network.pre_timestep` and `AirSpace.set_frequency_max_capacity_mbps`."""
+
+    def __init__(self, w: World, inventory=None):
         self.w = w
         self.top: List[dict] = []
         self.stack: List[List[dict]] = [self.top]
         self.open: List[dict] = []
         self.problems: List[dict] = []
         self._undo: List[Tuple[Any, str, Any]] = []
+        self.inventory = inventory if inventory is not None else default_inventory()
+        self.wrapped: List[str] = []
+        self.broken = False     # an unwinding exception made a load unreadable: the trace stops being comparable
 
     # -- helpers
     def _wired_load(self, k: int) -> int:
@@ -290,6 +399,13 @@ class Recorder:
         self.stack = [self.top]
         return out
 
+    def set_bandwidth(self, k: int, v: float):
+        """`links[k].bandwidth = v` (a plain attribute: nothing to wrap, so the rig's operation goes through here)."""
+        before = dump(self.w)
+        self.w.links[k].bandwidth = v
+        self.stack[-1].append({"t": "B", "k": k, "v": floor_bytes(self.w.links[k].bandwidth), "nested": len(self.stack) > 1,
+                               "before": before, "after": dump(self.w)})
+
     def _patch(self, cls, name, make):
         orig = cls.__dict__[name]
         setattr(cls, name, make(orig))
@@ -297,8 +413,7 @@ class Recorder:
 
     def __enter__(self):
         from primaite.simulator.network.airspace import AirSpace, WirelessNetworkInterface
-        from primaite.simulator.network.hardware.base import Link, WiredNetworkInterface
-        from primaite.simulator.network.hardware.nodes.network.switch import SwitchPort
+        from primaite.simulator.network.hardware.base import Link
         from primaite.simulator.network.hardware.nodes.network.wireless_router import WirelessAccessPoint
         rec = self
 
@@ -323,9 +438,21 @@ class Recorder:
                     rec.stack.append(att["children"])
                     try:
                         r = orig(iface, frame)
-                    finally:
+                    except BaseException:
+                        # an exception is unwinding through this send: it never returns. Whatever completed inside it is kept.
                         rec.stack.pop()
                         rec.open.pop()
+                        att["aborted"] = True
+                        att["ret"] = None
+                        try:
+                            att["load1"] = rec._air_load(where[0]) if wireless else rec._wired_load(where[0])
+                        except BaseException:
+                            att["load1"] = None
+                            rec.broken = True
+                        parent.append(att)
+                        raise
+                    rec.stack.pop()
+                    rec.open.pop()
                     att["ret"] = bool(r) if r is not None else None
                     att["load1"] = rec._air_load(where[0]) if wireless else rec._wired_load(where[0])
                     parent.append(att)
@@ -333,18 +460,66 @@ class Recorder:
                 return send_frame
             return make
 
-        self._patch(WiredNetworkInterface, "send_frame", mk_send(False))
-        self._patch(SwitchPort, "send_frame", mk_send(False))
-        self._patch(WirelessNetworkInterface, "send_frame", mk_send(True))
+        def mk_en(wireless, v):
+            def make(orig):
+                def toggle(iface):
+                    before = bool(iface.enabled)
+                    where = rec.w.chan_of(iface) if wireless else rec.w.link_of(iface)
+                    # the flag flips inside orig before any frame is sent (enable: default_gateway_hello comes later, in the
+                    # IP subclass; disable: endpoint_down sends nothing), so the event is placed first
+                    holder = rec.stack[-1]
+                    pos = len(holder)
+                    try:
+                        return orig(iface)
+                    finally:
+                        after = bool(iface.enabled)
+                        if where is not None and before != after:
+                            holder.insert(pos, {"t": "F" if wireless else "E", "k": where[0], "end": where[1], "v": after})
+                return toggle
+            return make
+
+        # which classes to wrap: the regenerated inventory (a class that transmits / writes the flag and is not listed there makes
+        # `C18_gen_iface_inventory` fail; a listed class that cannot be found at run time is a broken tie)
+        runtime, classes = runtime_iface_methods()
+        self.runtime_inventory = runtime
+        by_name = {(c.__name__, c.__module__.split(".")[-1] + ".py"): c for c in classes}
+        for cname, fname, method, steps in self.inventory:
+            cls = by_name.get((cname, fname))
+            if cls is None:
+                if fname in _DEAD_MODULES:
+                    self.dead = getattr(self, "dead", set()) | {f"{fname}:{cname} ({_DEAD_MODULES[fname]})"}
+                else:
+                    self.problems.append({"kind": "inventory-class-not-found-at-run-time", "class": cname, "file": fname})
+                continue
+            wireless = issubclass(cls, WirelessNetworkInterface)
+            if method == "send_frame" and steps and steps[0] == "enabled":
+                self._patch(cls, "send_frame", mk_send(wireless))
+                self.wrapped.append(f"{cname}.send_frame")
+            elif method == "enable" and "set" in steps:
+                self._patch(cls, "enable", mk_en(wireless, True))
+                self.wrapped.append(f"{cname}.enable")
+            elif method == "disable" and "clear" in steps:
+                self._patch(cls, "disable", mk_en(wireless, False))
+                self.wrapped.append(f"{cname}.disable")
 
         def mk_can(orig):
             def can_transmit_frame(link, frame):
+                exact = None
+                try:
+                    exact = bool(link.endpoint_a.enabled and link.endpoint_b.enabled) and (
+                        Fraction(link.current_load) + Fraction(frame.size_Mbits) <= Fraction(link.bandwidth))
+                except Exception:
+                    pass
                 r = orig(link, frame)
                 if rec.open and rec.open[-1]["t"] == "S" and rec.open[-1]["sc"] is None:
                     att = rec.open[-1]
                     att["sc"] = int(frame.size)
                     att["can"] = bool(r)
                     att["up"] = bool(link.endpoint_a.enabled and link.endpoint_b.enabled)
+                    att["cap0"] = floor_bytes(link.bandwidth)
+                    att["exact"] = exact
+                    if frame.size != int(frame.size):
+                        att["fractional_size"] = frame.size
                 return r
             return can_transmit_frame
         self._patch(Link, "can_transmit_frame", mk_can)
@@ -368,11 +543,20 @@ class Recorder:
 
         def mk_acan(orig):
             def can_transmit_frame(air, frame, sender_network_interface):
+                exact = None
+                try:
+                    hz = sender_network_interface.frequency.frequency_hz
+                    exact = (Fraction(air.bandwidth_load.get(hz, 0.0)) + Fraction(frame.size_Mbits)
+                             <= Fraction(air.get_frequency_max_capacity_mbps(sender_network_interface.frequency.name)))
+                except Exception:
+                    pass
                 r = orig(air, frame, sender_network_interface)
                 if rec.open and rec.open[-1]["t"] == "W" and rec.open[-1]["sc"] is None:
                     att = rec.open[-1]
                     att["sc"] = int(frame.size)
                     att["can"] = bool(r)
+                    att["cap0"] = rec.w.icap(sender_network_interface)
+                    att["exact"] = exact
                 return r
             return can_transmit_frame
         self._patch(AirSpace, "can_transmit_frame", mk_acan)
@@ -389,37 +573,31 @@ class Recorder:
             return transmit
         self._patch(AirSpace, "transmit", mk_atx)
 
+        def mk_setcap(orig):
+            def set_frequency_max_capacity_mbps(air, cfg):
+                if air is not rec.w.net.airspace:
+                    return orig(air, cfg)
+                before = dump(rec.w)
+                r = orig(air, cfg)
+                rec.stack[-1].append({"t": "C", "caps": [[rec.w.icap(i) for i in ifs] for _, ifs in rec.w.chans],
+                                      "nested": len(rec.stack) > 1, "before": before, "after": dump(rec.w)})
+                return r
+            return set_frequency_max_capacity_mbps
+        self._patch(AirSpace, "set_frequency_max_capacity_mbps", mk_setcap)
+
         def mk_wrecv(orig):
             def receive_frame(iface, frame):
                 where = rec.w.chan_of(iface)
-                att = next((a for a in reversed(rec.open) if a["t"] == "W"), None)
-                if where is not None and att is not None:
+                att = rec.open[-1] if rec.open and rec.open[-1]["t"] == "W" else None
+                if where is not None and att is not None and att["k"] == where[0]:
+                    # one turn of the loop of AirSpace.transmit: the frame in the air is handed to this interface NOW; what its
+                    # node does follows in the same list
                     att["rcv"].append(where[1])
                     att.setdefault("rcv_en", []).append(bool(iface.enabled))
+                    rec.stack[-1].append({"t": "R", "k": where[0], "i": att["end"], "j": where[1], "en": bool(iface.enabled)})
                 return orig(iface, frame)
             return receive_frame
         self._patch(WirelessAccessPoint, "receive_frame", mk_wrecv)
-
-        def mk_en(wireless, v):
-            def make(orig):
-                def toggle(iface):
-                    before = bool(iface.enabled)
-                    where = rec.w.chan_of(iface) if wireless else rec.w.link_of(iface)
-                    # the flag flips inside orig before any frame is sent (enable: default_gateway_hello comes later, in the
-                    # IP subclass; disable: endpoint_down sends nothing), so the event is placed first
-                    holder = rec.stack[-1]
-                    pos = len(holder)
-                    r = orig(iface)
-                    after = bool(iface.enabled)
-                    if where is not None and before != after:
-                        holder.insert(pos, {"t": "F" if wireless else "E", "k": where[0], "end": where[1], "v": after})
-                    return r
-                return toggle
-            return make
-        self._patch(WiredNetworkInterface, "enable", mk_en(False, True))
-        self._patch(WiredNetworkInterface, "disable", mk_en(False, False))
-        self._patch(WirelessNetworkInterface, "enable", mk_en(True, True))
-        self._patch(WirelessNetworkInterface, "disable", mk_en(True, False))
 
         from primaite.simulator.network.container import Network
 
@@ -465,6 +643,9 @@ def far_query(iface, frame) -> Optional[str]:
 
 # ------------------------------------------------------------------------------------------------- canonical forms
 def verdict_of(att: dict) -> str:
+    if att.get("aborted"):
+        # an exception unwound through this send_frame: after the hand-over (the reservation stays) or before it (nothing happened)
+        return "lost" if att["tx"] else "aborted-before-transmit"
     if att["sc"] is None:
         return "disabled" if not att["enS0"] else "not-asked"
     if not att["can"]:
@@ -479,34 +660,47 @@ def verdict_of(att: dict) -> str:
 def tokens(forest: List[dict]) -> List[str]:
     out: List[str] = []
     for e in forest:
-        if e["t"] == "S":
+        if e["t"] in ("S", "W") and e.get("aborted") and not e["tx"]:
+            out += tokens(e["children"])      # raised before anything was reserved: the send itself left no trace (children: none)
+        elif e["t"] == "S":
             s = e["sc"] if e["sc"] is not None else e["size0"]
-            out += ["S", str(e["k"]), "1" if e["end"] else "0", str(s), "1" if e["acc"] else "0", "["]
+            if e.get("aborted"):
+                out += ["L", str(e["k"]), "1" if e["end"] else "0", str(s), "["]
+            else:
+                out += ["S", str(e["k"]), "1" if e["end"] else "0", str(s), "1" if e["acc"] else "0", "["]
             out += tokens(e["children"])
             out.append("]")
         elif e["t"] == "W":
             s = e["sc"] if e["sc"] is not None else e["size0"]
-            out += ["W", str(e["k"]), str(e["end"]), str(s), "["]
+            out += ["M" if e.get("aborted") else "W", str(e["k"]), str(e["end"]), str(s), "["]
             out += tokens(e["children"])
             out.append("]")
         elif e["t"] == "E":
             out += ["E", str(e["k"]), "1" if e["end"] else "0", "1" if e["v"] else "0"]
         elif e["t"] == "F":
             out += ["F", str(e["k"]), str(e["end"]), "1" if e["v"] else "0"]
+        elif e["t"] == "R":
+            out += ["R", str(e["k"]), str(e["i"]), str(e["j"])]
         else:
-            raise ValueError("tick marker inside an action")
+            raise ValueError("tick / capacity marker inside an action")
     return out
 
 
 def recs(forest: List[dict]) -> List[str]:
-    """Records in the order the send_frame calls returned (children before their parent), in the driver's format."""
+    """Records in the order the send_frame calls returned or were unwound (children before their parent), in the driver's format."""
     out: List[str] = []
     for e in forest:
+        if e["t"] == "R":
+            out.append(f"H{e['k']}:{e['j']}:heard")      # the implementation did hand the frame to interface j
+            continue
         if e["t"] not in ("S", "W"):
             continue
         v = verdict_of(e)
-        crossed = v in ("carried", "rejected")
-        if v == "carried":
+        if v == "aborted-before-transmit":
+            out += recs(e["children"])
+            continue
+        crossed = v in ("carried", "rejected", "lost")
+        if v in ("carried", "lost"):
             out += recs(e["children"])
         b = lambda x: "1" if x else "0"  # noqa: E731
         if e["t"] == "S":
@@ -515,7 +709,7 @@ def recs(forest: List[dict]) -> List[str]:
             out.append(f"S{e['k']}:{v}:{b(enS)}{b(enR)}:{e['load1']}")
         else:
             enS = e["enS"] if crossed else e["enS0"]
-            out.append(f"W{e['k']}:{v}:{b(enS)}:{','.join(str(i) for i in (sorted(e['rcv']) if crossed else []))}:{e['load1']}")
+            out.append(f"W{e['k']}:{v}:{b(enS)}:{e['load1']}")
     return out
 
 
@@ -578,6 +772,19 @@ def apply_op(w: World, op: list, t: List[int]):
     elif kind == "power":
         n = w.nodes[op[1]]
         (n.power_on if op[2] == "on" else n.power_off)()
+    elif kind == "setbw":
+        # a user's script reassigns a link's bandwidth between two actions (in mid-tick or not)
+        w.rec.set_bandwidth(op[1] % len(w.links), float(op[2]))
+    elif kind == "setcap":
+        # ... or overrides a frequency's capacity (the call PrimaiteGame.from_config makes, but in mid-episode)
+        if op[1] in w.net.airspace.frequencies:
+            w.net.airspace.set_frequency_max_capacity_mbps({op[1]: float(op[2])})
+    elif kind == "bfill":
+        _bfill(w, op[1], op[2], op[3], op[4], op[5], op[6])
+    elif kind == "wbfill":
+        _wbfill(w, op[1], op[2], op[3], op[4], op[5])
+    elif kind == "c2":
+        _c2(w, op[1])
     else:
         raise ValueError(f"unknown op {op}")
 
@@ -650,6 +857,82 @@ def _wburst(w: World, router: str, length: int, count: int):
         ap.send_frame(f)
 
 
+def _nudge(x: float, mode: str) -> float:
+    import math
+    if mode == "below":
+        return math.nextafter(x, 0.0)
+    if mode == "above":
+        return math.nextafter(x, math.inf)
+    return x
+
+
+def _bfill(w: World, src: str, dst: str, length: int, count: int, k: int, mode: str):
+    """Float boundary: `count` hand-made frames, stamped beforehand so that their sizes are fixed; the bandwidth of the sender's link
+    is then set to EXACTLY the load so far plus the first `k` of them (mode "exact"), to the float just below that ("below") or
+    just above ("above"); then all frames are sent.  In exact arithmetic the k-th frame fits iff mode != "below"."""
+    from primaite.simulator.network.transmission.data_link_layer import EthernetHeader, Frame
+    from primaite.simulator.network.transmission.network_layer import IPPacket
+    from primaite.simulator.network.transmission.transport_layer import UDPHeader
+    nic = w.nodes[src].network_interface[1]
+    where = w.link_of(nic)
+    if where is None:
+        return
+    mac, ip = w.nodes[dst].network_interface[1].mac_address, w.ip[dst]
+    frames = []
+    for _ in range(count):
+        f = Frame(ethernet=EthernetHeader(src_mac_addr=nic.mac_address, dst_mac_addr=mac),
+                  ip=IPPacket(src_ip_address=nic.ip_address, dst_ip_address=ip, protocol=_proto("UDP")),
+                  udp=UDPHeader(src_port=_port("NTP"), dst_port=_port("NTP")), payload="x" * length)
+        f.set_sent_timestamp()
+        frames.append(f)
+    link = w.links[where[0]]
+    total = exact_bytes(link.current_load) + sum(int(f.size) for f in frames[:max(1, min(k, count))])
+    w.rec.set_bandwidth(where[0], _nudge(total / UNIT, mode))
+    for f in frames:
+        nic.send_frame(f)
+
+
+def _wbfill(w: World, router: str, length: int, count: int, k: int, mode: str):
+    """The same boundary on the airspace: the capacity of the access point's frequency name := load so far + the first k frames."""
+    from primaite.simulator.network.transmission.data_link_layer import EthernetHeader, Frame
+    from primaite.simulator.network.transmission.network_layer import IPPacket
+    from primaite.simulator.network.transmission.transport_layer import UDPHeader
+    ap = w.ifaces[f"{router}:1"]
+    where = w.chan_of(ap)
+    if where is None:
+        return
+    frames = []
+    for _ in range(count):
+        f = Frame(ethernet=EthernetHeader(src_mac_addr=ap.mac_address, dst_mac_addr="ff:ff:ff:ff:ff:ff"),
+                  ip=IPPacket(src_ip_address=ap.ip_address, dst_ip_address=str(ap.ip_network.broadcast_address), protocol=_proto("UDP")),
+                  udp=UDPHeader(src_port=_port("NTP"), dst_port=_port("NTP")), payload="x" * length)
+        f.set_sent_timestamp()
+        frames.append(f)
+    hz = w.chans[where[0]][0]
+    total = exact_bytes(_air_load_of(w.net.airspace, hz)) + sum(int(f.size) for f in frames[:max(1, min(k, count))])
+    w.net.airspace.set_frequency_max_capacity_mbps({ap.frequency.name: _nudge(total / UNIT, mode)})
+    for f in frames:
+        ap.send_frame(f)
+
+
+def _c2(w: World, request: list):
+    """Real software toggling an interface inside a delivery, second instance: the C2 server tells the beacon to run a terminal
+    command; `C2Beacon._command_terminal` -> `Terminal.execute` -> `Node.apply_request` runs on the beacon's host while the frame
+    that carried the command is still being delivered (and the beacon then tries to answer over the interface it has just disabled)."""
+    from primaite.simulator.system.applications.red_applications.c2.abstract_c2 import C2Command
+    if not w.c2:
+        return
+    a, b = w.c2
+    server = w.nodes[a].software_manager.software.get("c2-server")
+    beacon = w.nodes[b].software_manager.software.get("c2-beacon")
+    if server is None or beacon is None:
+        return
+    if not beacon.c2_connection_active:
+        beacon.establish()
+    server.send_command(C2Command.TERMINAL, command_options={"commands": [list(request)], "username": "admin", "password": "admin",
+                                                              "ip_address": None})
+
+
 _FTP_N = [0]
 
 
@@ -709,7 +992,7 @@ def _caps(w: World):
     return ([floor_bytes(l.bandwidth) for l in w.links], [[w.icap(i) for i in ifs] for _, ifs in w.chans])
 
 
-def run_impl(case: dict) -> dict:
+def run_impl(case: dict, inventory=None) -> dict:
     """Run one case on the implementation. Returns the protocol lines for the model, the implementation's answers in the
     same format, the raw forests, and what the implementation-side oracle saw."""
     import logging
@@ -724,14 +1007,21 @@ def run_impl(case: dict) -> dict:
     impl = ["ok"] * len(lines)
     forests: List[List[dict]] = []
     oracle: List[dict] = []
-    lcap, ccap = _caps(w)
+    lcap, ccap = _caps(w)            # capacities in force now
+    lpeak = list(lcap)               # largest bandwidth in force since the tick began, per link
+    cpeak = [max(c) if c else 0 for c in ccap]
+    lvals = [{b} for b in lcap]      # every bandwidth / capacity value in force since the tick began
+    cvals = [set(c) for c in ccap]
     carried = {}      # (medium, k) -> bytes carried since the last tick boundary
-    sent_under = {}   # (channel, C) -> bytes sent since the last tick boundary by interfaces whose name's capacity is <= C
+    under = {}        # (medium, k, C) -> bytes carried since the last tick boundary by frames admitted against a capacity <= C
     t = [1]
 
     forest_ops: List[int] = []
     info: Dict[str, int] = {}
     far_seen = set()
+
+    def bump(k, n=1):
+        info[k] = info.get(k, 0) + n
 
     def segment(oi: int, seg: List[dict], after: str):
         forests.append(seg)
@@ -740,71 +1030,108 @@ def run_impl(case: dict) -> dict:
         impl.append(" ".join(recs(seg)) + " | " + after)
         # the far interface's answer against C08's acceptance model, once per distinct question
         for e in walk(seg):
-            if e["t"] == "S" and e["tx"]:
+            if e["t"] == "S" and e["tx"] and e["acc"] is not None:
                 if e.get("far") is None:
-                    info["far-answer-not-modelled"] = info.get("far-answer-not-modelled", 0) + 1
+                    bump("far-answer-not-modelled")
                 elif (e["far"], e["acc"]) not in far_seen:
                     far_seen.add((e["far"], e["acc"]))
                     lines.append("far " + e["far"])
                     impl.append("1" if e["acc"] else "0")
-                    info["far-answer:" + e["far"][0] + (":taken" if e["acc"] else ":refused")] = info.get(
-                        "far-answer:" + e["far"][0] + (":taken" if e["acc"] else ":refused"), 0) + 1
+                    bump("far-answer:" + e["far"][0] + (":taken" if e["acc"] else ":refused"))
         # implementation-side oracle, independent of the model
         for e in walk(seg):
             if e["t"] not in ("S", "W"):
                 continue
             medium = "wired" if e["t"] == "S" else "wireless"
-            # wireless: the load of a hz is bounded by the largest capacity of the frequency names configured on it
-            cap = lcap[e["k"]] if e["t"] == "S" else max(ccap[e["k"]])
-            if e["load1"] > cap:
+            # the load is bounded by the largest capacity in force since the tick began (wireless: over the frequency names on the hz)
+            cap = lpeak[e["k"]] if e["t"] == "S" else cpeak[e["k"]]
+            if e["load1"] is not None and e["load1"] > cap:
                 oracle.append({"kind": "load-exceeds-bandwidth", "op": oi, "medium": medium, "k": e["k"], "load": e["load1"], "cap": cap,
                                "nested": bool(e["children"])})
-            if e["tx"] and e["sc"] != e["sa"]:
+            if e["tx"] and e["sc"] is None:
+                oracle.append({"kind": "frame-transmitted-without-an-admission-test", "op": oi, "medium": medium, "k": e["k"], "size": e["sa"]})
+            elif e["tx"] and e["sc"] != e["sa"]:
                 oracle.append({"kind": "admitted-size-differs-from-loaded-size", "op": oi, "medium": medium, "sc": e["sc"], "sa": e["sa"]})
             if e["tx"] and e["t"] == "S" and not (e["enS"] and e["enR"]):
                 oracle.append({"kind": "frame-crossed-a-down-link", "op": oi, "medium": medium, "k": e["k"]})
             if e["tx"] and e["t"] == "W" and not (e["enS"] and all(e.get("rcv_en", []))):
                 oracle.append({"kind": "frame-crossed-a-down-link", "op": oi, "medium": medium, "k": e["k"]})
-            if e["t"] == "S" and e["tx"] and not e["acc"] and e["children"]:
+            if e["t"] == "S" and e["tx"] and e["acc"] is False and e["children"]:
                 oracle.append({"kind": "sends-nested-under-a-rejected-frame", "op": oi, "medium": medium, "k": e["k"]})
             if e["sc"] is not None and not e["can"] and (e["children"] or e["tx"]):
                 oracle.append({"kind": "refused-frame-was-transmitted", "op": oi, "medium": medium, "k": e["k"]})
+            # a frame crosses only if it fits: load before + size <= the capacity in force at the admission test (exact integers)
+            if e["tx"] and e.get("cap0") is not None and e["load0"] + e["sa"] > e["cap0"]:
+                oracle.append({"kind": "frame-crossed-without-fitting", "op": oi, "medium": medium, "k": e["k"], "load": e["load0"],
+                               "size": e["sa"], "cap": e["cap0"]})
+            # floats: the verdict of the real (float) admission test against the same comparison in exact rational arithmetic
+            if e["sc"] is not None and e.get("exact") is not None:
+                bump("float-admission-tests-checked-against-exact-arithmetic")
+                if bool(e["can"]) != bool(e["exact"]):
+                    oracle.append({"kind": "float-admission-differs-from-exact", "op": oi, "medium": medium, "k": e["k"],
+                                   "float": bool(e["can"]), "exact": bool(e["exact"]), "load": e["load0"], "size": e["sc"]})
+                if e.get("cap0") is not None and e["load0"] + e["sc"] == e["cap0"] and (e["t"] == "W" or e.get("up")):
+                    bump("admission-at-the-exact-boundary:" + ("admitted" if e["can"] else "refused"))
+                if e.get("cap0") is not None and e["load0"] + e["sc"] == e["cap0"] + 1 and (e["t"] == "W" or e.get("up")):
+                    bump("admission-one-byte-over:" + ("admitted" if e["can"] else "refused"))
+            if e.get("fractional_size") is not None:
+                oracle.append({"kind": "frame-size-is-not-a-whole-number-of-bytes", "op": oi, "medium": medium, "size": e["fractional_size"]})
         # the property read literally: bytes carried since the tick began, counted by the rig itself (post-order = completion order)
-        # (no exemption for interfaces disabled within the tick any more: F-40 is repaired)
+        # against the largest capacity in force since the tick began; and, for every capacity value C in force since the tick began,
+        # the bytes of the frames that were admitted against a capacity <= C stay within C
         def count(forest):
             for e in forest:
                 if e["t"] not in ("S", "W"):
                     continue
-                if e["tx"] and e["acc"]:
+                if e["tx"] and (e["acc"] or e.get("aborted")):
                     count(e["children"])
-                    key = ("wired" if e["t"] == "S" else "wireless", e["k"])
+                    medium = "wired" if e["t"] == "S" else "wireless"
+                    key = (medium, e["k"])
                     carried[key] = carried.get(key, 0) + e["sa"]
-                    cap = lcap[e["k"]] if e["t"] == "S" else max(ccap[e["k"]])
+                    cap = lpeak[e["k"]] if e["t"] == "S" else cpeak[e["k"]]
                     if carried[key] > cap:
                         oracle.append({"kind": "carried-data-exceeds-bandwidth", "op": oi, "medium": key[0], "k": e["k"],
                                        "carried": carried[key], "cap": cap})
-                    if e["t"] == "W":
-                        # per frequency name: what the interfaces admitted against a capacity <= C have sent stays within C
-                        for C in sorted(set(ccap[e["k"]])):
-                            if e["capS"] <= C:
-                                sent_under[(e["k"], C)] = sent_under.get((e["k"], C), 0) + e["sa"]
-                                if sent_under[(e["k"], C)] > C:
-                                    oracle.append({"kind": "data-sent-under-a-frequency-name-exceeds-its-capacity", "op": oi,
-                                                   "medium": "wireless", "k": e["k"], "sent": sent_under[(e["k"], C)], "cap": C})
+                    own = e["cap0"] if e.get("cap0") is not None else (e.get("capS") if e["t"] == "W" else lcap[e["k"]])
+                    for C in sorted(lvals[e["k"]] if e["t"] == "S" else cvals[e["k"]]):
+                        if own <= C:
+                            under[(medium, e["k"], C)] = under.get((medium, e["k"], C), 0) + e["sa"]
+                            if under[(medium, e["k"], C)] > C:
+                                oracle.append({"kind": ("data-sent-under-a-frequency-name-exceeds-its-capacity" if e["t"] == "W"
+                                                        else "data-admitted-under-a-bandwidth-exceeds-it"), "op": oi,
+                                               "medium": medium, "k": e["k"], "sent": under[(medium, e["k"], C)], "cap": C})
+                elif e.get("aborted"):
+                    count(e["children"])
         count(seg)
-        for k, l in enumerate(w.links):
-            if not l.current_load <= l.bandwidth:
-                oracle.append({"kind": "load-exceeds-bandwidth", "op": oi, "medium": "wired", "k": k, "load": exact_bytes(l.current_load),
-                               "cap": lcap[k], "at": "end-of-op"})
-        for hz, ifs in w.chans:
-            caps_f = [w.net.airspace.get_frequency_max_capacity_mbps(i.frequency.name) for i in ifs]
-            if not _air_load_of(w.net.airspace, hz) <= max(caps_f):
-                oracle.append({"kind": "load-exceeds-bandwidth", "op": oi, "medium": "wireless", "k": hz, "at": "end-of-op"})
-            elif _air_load_of(w.net.airspace, hz) > min(caps_f):
-                # not a violation (see C18_air_two_names_counterexample): the hz is above the capacity of its smaller name
-                info["hz-load-above-the-smaller-of-two-name-capacities"] = info.get("hz-load-above-the-smaller-of-two-name-capacities", 0) + 1
+        end_of_op_checks(oi, "end-of-op")
 
-    with Recorder(w) as rec:
+    def end_of_op_checks(oi: int, at: str):
+        for k, l in enumerate(w.links):
+            if exact_bytes(l.current_load) > lpeak[k]:
+                oracle.append({"kind": "load-exceeds-bandwidth", "op": oi, "medium": "wired", "k": k, "load": exact_bytes(l.current_load),
+                               "cap": lpeak[k], "at": at})
+        for c, (hz, ifs) in enumerate(w.chans):
+            load = exact_bytes(_air_load_of(w.net.airspace, hz))
+            if load > cpeak[c]:
+                oracle.append({"kind": "load-exceeds-bandwidth", "op": oi, "medium": "wireless", "k": hz, "at": at})
+            elif ccap[c] and load > min(ccap[c]):
+                # not a violation (see C18_air_two_names_counterexample): the hz is above the capacity of its smaller name
+                bump("hz-load-above-the-smaller-of-two-name-capacities")
+
+    def new_tick():
+        carried.clear()
+        under.clear()
+        for k in range(len(lcap)):
+            lpeak[k] = lcap[k]
+            lvals[k] = {lcap[k]}
+        for c in range(len(ccap)):
+            cpeak[c] = max(ccap[c]) if ccap[c] else 0
+            cvals[c] = set(ccap[c])
+
+    with Recorder(w, inventory) as rec:
+        w.rec = rec
+        for pr in rec.problems:
+            oracle.append(dict(pr, op=-1))
         for oi, op in enumerate(case["ops"]):
             err = None
             if "scenario" in case:
@@ -820,45 +1147,67 @@ def run_impl(case: dict) -> dict:
                 logging.disable(logging.NOTSET)
             forest = rec.take()
             if err:
-                # an exception unwound through the middle of a delivery (e.g. RecursionError in a broadcast storm): the call tree of
-                # this op is incomplete, so the trace stops being comparable here; the loads it left behind are still checked
+                # an exception unwound through the middle of a delivery (RecursionError in a broadcast storm; the rig's raising test
+                # double): the sends it passed through never returned and are recorded as `lost` (reservation in place, whatever had
+                # completed inside them kept); the trace stays comparable and the case goes on
                 oracle.append({"kind": "exception", "op": oi, "detail": err})
-                for k, l in enumerate(w.links):
-                    if not l.current_load <= l.bandwidth:
-                        oracle.append({"kind": "load-exceeds-bandwidth", "op": oi, "medium": "wired", "k": k,
-                                       "load": exact_bytes(l.current_load), "cap": lcap[k], "at": "after-exception"})
-                for hz, ifs in w.chans:
-                    if not _air_load_of(w.net.airspace, hz) <= max(w.net.airspace.get_frequency_max_capacity_mbps(i.frequency.name)
-                                                                    for i in ifs):
-                        oracle.append({"kind": "load-exceeds-bandwidth", "op": oi, "medium": "wireless", "k": hz, "at": "after-exception"})
-                break
+                bump("ops-that-raised")
+                if rec.broken:
+                    end_of_op_checks(oi, "after-exception")
+                    break
             seg: List[dict] = []
             for e in forest:
-                if e["t"] != "T":
+                if e["t"] not in ("T", "B", "C"):
                     seg.append(e)
                     continue
                 if e["nested"]:
-                    oracle.append({"kind": "tick-inside-a-delivery", "op": oi})
+                    oracle.append({"kind": "tick-or-capacity-change-inside-a-delivery", "op": oi})
                 if seg:
                     segment(oi, seg, e["before"])
                     seg = []
-                lines.append("tick")
-                impl.append(e["after"])
-                if not e["zero"]:
-                    oracle.append({"kind": "load-not-zero-after-tick", "op": oi, "medium": "any"})
-                carried.clear()
-                sent_under.clear()
-            if seg or op[0] not in ("tick", "step"):
+                if e["t"] == "T":
+                    lines.append("tick")
+                    impl.append(e["after"])
+                    if not e["zero"]:
+                        oracle.append({"kind": "load-not-zero-after-tick", "op": oi, "medium": "any"})
+                    new_tick()
+                elif e["t"] == "B":
+                    bump("capacity-change:wired:" + ("raise" if e["v"] > lcap[e["k"]] else "lower" if e["v"] < lcap[e["k"]] else "same"))
+                    if e["v"] < exact_bytes(w.links[e["k"]].current_load):
+                        bump("capacity-change:wired:lowered-below-the-load")
+                    lcap[e["k"]] = e["v"]
+                    lpeak[e["k"]] = max(lpeak[e["k"]], e["v"])
+                    lvals[e["k"]].add(e["v"])
+                    lines.append(f"setbw {e['k']} {e['v']}")
+                    impl.append("ok")
+                    lines.append("dump")
+                    impl.append(e["after"])
+                else:
+                    for c, caps in enumerate(e["caps"]):
+                        for i, v in enumerate(caps):
+                            if v != ccap[c][i]:
+                                bump("capacity-change:wireless:" + ("raise" if v > ccap[c][i] else "lower"))
+                                ccap[c][i] = v
+                                lines.append(f"setcap {c} {i} {v}")
+                                impl.append("ok")
+                        cpeak[c] = max(cpeak[c], max(ccap[c])) if ccap[c] else cpeak[c]
+                        cvals[c] |= set(ccap[c])
+                    lines.append("dump")
+                    impl.append(e["after"])
+            if seg or op[0] not in ("tick", "step", "setbw", "setcap"):
                 segment(oi, seg, dump(w))
         else:
             lines.append("dump")
             impl.append(dump(w))
+        wrapped = list(rec.wrapped)
+        runtime_inv = sorted(rec.runtime_inventory)
     if getattr(w, "env", None) is not None:
         try:
             w.env.close()
         except Exception:
             pass
-    return {"lines": lines, "impl": impl, "forests": forests, "forest_ops": forest_ops, "oracle": oracle, "info": info}
+    return {"lines": lines, "impl": impl, "forests": forests, "forest_ops": forest_ops, "oracle": oracle, "info": info,
+            "wrapped": wrapped, "runtime_inventory": runtime_inv}
 
 
 # ------------------------------------------------------------------------------------------------- generation
@@ -914,9 +1263,18 @@ def gen_case(rng: Rng, max_ops: int = 14) -> dict:
         ifaces += [f"r:{p}" for p in range(1, len(hosts) + 1)]
     elif kind == "wireless":
         ifaces += [f"wr{j}:1" for j in range(len(hosts))] + [f"wr{j}:2" for j in range(len(hosts))]
-    if rng.chance(1, 4) and kind != "wireless":
+    if rng.chance(1, 3):
         tgt_host = rng.choice(hosts)
-        topo["tripwire"] = {"host": tgt_host, "target": rng.choice(ifaces)}
+        topo["tripwire"] = {"host": tgt_host, "target": rng.choice(ifaces), "also": list(hosts)}
+        if kind == "wireless" and rng.chance(1, 2):
+            # an access point: toggled while a frame is in the air, i.e. inside the loop of AirSpace.transmit
+            topo["tripwire"]["target"] = "wr%d:1" % rng.below(len(hosts))
+    if rng.chance(1, 5):
+        # a C2 server and a beacon: the second piece of real software that executes requests it receives over the network
+        a0 = rng.choice(hosts)
+        topo["c2"] = [a0, rng.choice([h for h in hosts if h != a0])]
+    capchange = rng.chance(1, 4)        # this case reassigns bandwidths / frequency capacities in mid-episode
+    boundary = rng.chance(1, 4)         # this case sets a capacity to the exact sum of k frames (or one ulp beside it)
     ops: List[list] = []
     n = rng.range(3, max_ops)
     # targets of remote terminal commands: the other hosts, and the router(s) with all their ports
@@ -934,7 +1292,29 @@ def gen_case(rng: Rng, max_ops: int = 14) -> dict:
             tgt, port = rng.choice([t for t in rtargets if t[0] != a])
             if kind == "wireless" and tgt.startswith("wr"):
                 tgt = "wr" + a[1:]          # a host reaches its own wireless router by the gateway address
-            ops.append(["rcmd", a, tgt, ["network_interface", port, rng.choice(["disable", "disable", "enable"])]])
+            if rng.chance(1, 7):
+                # the remote command powers the node off: with shut_down_duration 0 every interface of the node is disabled
+                # while the frame that carried the command is still being delivered
+                ops.append(["rcmd", a, tgt, ["shutdown"]])
+            else:
+                ops.append(["rcmd", a, tgt, ["network_interface", port, rng.choice(["disable", "disable", "enable"])]])
+        elif topo.get("c2") and r >= 34 and r < 42:
+            ops.append(["c2", ["network_interface", 1, rng.choice(["disable", "disable", "enable"])]])
+        elif capchange and r >= 42 and r < 50:
+            if kind == "wireless" and rng.chance(1, 2):
+                name = rng.choice([f for f, _ in topo["cap"]])
+                ops.append(["setcap", name, rng.choice([gen_bw(rng, True), gen_bw(rng, True) * 3, 0.0, 1.0])])
+            else:
+                ops.append(["setbw", rng.below(nl), rng.choice([gen_bw(rng, True), gen_bw(rng, True) * 2, gen_bw(rng, False), 0.0])])
+        elif boundary and r >= 50 and r < 58:
+            if kind == "wireless" and rng.chance(1, 2):
+                ops.append(["wbfill", "wr%d" % rng.below(len(hosts)), rng.choice([0, 10, 100, 1000]), rng.range(2, 5), rng.range(1, 4),
+                            rng.choice(["exact", "exact", "below", "above"])])
+            else:
+                ops.append(["bfill", a, b, rng.choice([0, 10, 100, 1000]), rng.range(2, 5), rng.range(1, 4),
+                            rng.choice(["exact", "exact", "below", "above"])])
+        elif topo.get("tripwire") and r >= 58 and r < 66:
+            ops += trip_ops(rng, topo, hosts)
         elif r < 30:
             ops.append(["ping", a, b, rng.choice([1, 1, 2, 4])])
         elif r < 38:
@@ -953,13 +1333,22 @@ def gen_case(rng: Rng, max_ops: int = 14) -> dict:
         elif r < 93 and topo["ftp"]:
             ops.append(["ftp", rng.choice([100, 1000, 5000, 100000, 10 * 10 ** 6]), None])
         elif topo.get("tripwire"):
-            src = rng.choice([h for h in hosts if h != topo["tripwire"]["host"]])
-            if rng.chance(1, 2):  # warm the ARP cache so that the payload really travels
-                ops.append(["ping", src, topo["tripwire"]["host"], 1])
-            ops.append(["trip", src, topo["tripwire"]["host"], rng.choice(["trip-off", "trip-on", "trip-flap"])])
+            ops += trip_ops(rng, topo, hosts)
         else:
             ops.append(["ping", a, b, 1])
     return {"topo": topo, "ops": ops}
+
+
+def trip_ops(rng: Rng, topo: dict, hosts: List[str]) -> List[list]:
+    out: List[list] = []
+    src = rng.choice([h for h in hosts if h != topo["tripwire"]["host"]])
+    if rng.chance(1, 2):  # warm the ARP cache so that the payload really travels
+        out.append(["ping", src, topo["tripwire"]["host"], 1])
+    others = [h for h in hosts if h not in (src, topo["tripwire"]["host"])]
+    out.append(["trip", src, topo["tripwire"]["host"],
+                rng.choice(["trip-off", "trip-on", "trip-flap", "trip-off", "trip-raise", "trip-raise",
+                            "trip-relay:" + rng.choice(others or [src])])])
+    return out
 
 
 SCENARIOS = ["data_manipulation.yaml", "data_manipulation.yaml", "uc7_config.yaml"]
